@@ -926,3 +926,103 @@ Section Held.
     cbn [v_qty]. intros Hz. destruct (H1 Hz) as [pr Hpr]. exists pr. rewrite Hc1 in Hpr. exact Hpr.
   Qed.
 End Held.
+
+Lemma day_accounts_ok d :
+  Forall posting_in_ok (day_postings d) ->
+  Forall (fun t => Forall (fun p => account_ok (p_acc p) = true) (t_postings t)) (d_txns d).
+Proof.
+  unfold day_postings. rewrite Forall_concat, Forall_map. apply Forall_impl. intros t.
+  apply Forall_impl. intros p [H _]. exact H.
+Qed.
+
+Lemma days_held_has_price v a c :
+  account_ok a = true -> is_AL a = true -> c <> v ->
+  forall ds s s' ds',
+  process_days (valuate_proc v) s ds = ROk (s', ds') ->
+  Forall posting_in_ok (days_postings ds) -> good a c PT (v_qty s) -> ds <> [] ->
+  is_zero (getd (v_qty s') a c) = false ->
+  exists pr, np_price_opt (last_normalized (v_prev s) ds) c = Some pr.
+Proof.
+  intros Ha HAL Hcv. induction ds as [|d r IH]; intros s s' ds' H Hin Hg Hne Hz; [contradiction|].
+  cbn [process_days] in H.
+  destruct (process_day (valuate_proc v) s d) as [[s1 d1]| |] eqn:E1; cbn [rbind fst snd] in H; try discriminate.
+  destruct (process_days (valuate_proc v) s1 r) as [[s2 r2]| |] eqn:E2; cbn [rbind fst snd] in H; try discriminate.
+  injection H as <- <-.
+  unfold days_postings in Hin. cbn [map concat] in Hin. apply Forall_app in Hin. destruct Hin as [Hd Hr].
+  destruct r as [|d2 r'].
+  - cbn [process_days] in E2. injection E2 as <- _. cbn [last_normalized fold_left].
+    destruct Hg as (_ & He & _).
+    exact (day_held_has_price v a c Ha HAL Hcv _ _ _ _ E1 (day_accounts_ok d Hd) He Hz).
+  - assert (E1' : process_days (valuate_proc v) s [d] = ROk (s1, [d1])).
+    { cbn [process_days]. rewrite E1. reflexivity. }
+    assert (Hd' : Forall posting_in_ok (days_postings [d])).
+    { unfold days_postings. cbn [map concat]. rewrite app_nil_r. exact Hd. }
+    destruct (mtm_delta v a c [d] s s1 [d1] Ha HAL Hcv Hd' Hg E1') as (A1 & A2 & _).
+    cbn [last_normalized fold_left] in A1.
+    destruct (IH s1 s2 r2 E2 Hr A2 ltac:(discriminate) Hz) as [pr Hpr].
+    exists pr. rewrite A1 in Hpr. exact Hpr.
+Qed.
+
+(* whenever the final quantity of the cell is not zero, its price on the last day exists: the
+   0 that price_value returns for a missing price is never multiplied with a non-zero quantity *)
+Theorem held_has_price v a c ds s' ds' :
+  account_ok a = true -> is_AL a = true -> c <> v ->
+  Forall posting_in_ok (days_postings ds) ->
+  process_days (valuate_proc v) val_init ds = ROk (s', ds') ->
+  ~ cell_qty a c (days_postings ds) == 0 ->
+  exists pr, np_price_opt (last_normalized None ds) c = Some pr.
+Proof.
+  intros Ha HAL Hcv Hin H Hq.
+  destruct (mtm_delta v a c ds val_init s' ds' Ha HAL Hcv Hin (good_nil a c PT) H) as (_ & _ & B5 & _).
+  cbn [val_init v_qty] in B5. rewrite posq_nil, Qplus_0_l in B5.
+  assert (Hne : ds <> []) by (intros ->; apply Hq; reflexivity).
+  apply (days_held_has_price v a c Ha HAL Hcv ds val_init s' ds' H Hin (good_nil a c PT) Hne).
+  destruct (is_zero (getd (v_qty s') a c)) eqn:Ez; [|reflexivity].
+  exfalso. apply Hq. rewrite <- B5. apply is_zero_value. exact Ez.
+Qed.
+
+(* ------------------------------------------------------------ only asset/liability positions are revalued *)
+
+(* every revaluation transaction is for an open position of an asset or liability account in a
+   commodity other than V; it books between that account and its Income mirror.  Positions of
+   other accounts never enter the position map (good: entry_ok), so nothing else is revalued *)
+Lemma val_adjustments_only_AL v date prev cur pos : forall ts,
+  val_adjustments v date prev cur pos = ROk ts ->
+  Forall (fun t => exists k a c q gain, In (k, (a, c, q)) pos /\
+                   is_AL a = true /\ str_eqb c v = false /\ is_zero q = false /\
+                   t_postings t = pair_build (valuation_account_for a) a c dec_nil gain) ts.
+Proof.
+  induction pos as [|[k [[a c] q]] rest IH]; intros ts H; cbn [val_adjustments] in H.
+  - injection H as <-. constructor.
+  - assert (Hrest : forall ts', val_adjustments v date prev cur rest = ROk ts' ->
+        Forall (fun t => exists k0 a0 c0 q0 gain, In (k0, (a0, c0, q0)) ((k, (a, c, q)) :: rest) /\
+                   is_AL a0 = true /\ str_eqb c0 v = false /\ is_zero q0 = false /\
+                   t_postings t = pair_build (valuation_account_for a0) a0 c0 dec_nil gain) ts').
+    { intros ts' H'. eapply Forall_impl; [|apply IH; exact H'].
+      intros t (k0 & a0 & c0 & q0 & g & Hin & Hx). exists k0, a0, c0, q0, g. split; [right; exact Hin|exact Hx]. }
+    destruct (str_eqb c v || negb (is_AL a) || is_zero q) eqn:Eskip; [apply Hrest; exact H|].
+    apply orb_false_iff in Eskip. destruct Eskip as [Eskip Ez]. apply orb_false_iff in Eskip. destruct Eskip as [Ev EAL].
+    apply negb_false_iff in EAL.
+    destruct (np_price_opt prev c) as [pp|]; try discriminate.
+    destruct (np_price_opt cur c) as [cp|]; try discriminate.
+    destruct (is_zero (sub cp pp)); [apply Hrest; exact H|].
+    destruct (val_adjustments v date prev cur rest) as [ts'| |] eqn:E; try discriminate. cbn [rbind] in H.
+    injection H as <-. constructor; [|apply Hrest; reflexivity].
+    exists k, a, c, q, (multiply (sub cp pp) q). cbn [t_postings]. split; [left; reflexivity|]. auto.
+Qed.
+
+(* the position map of the stage only ever holds asset/liability accounts *)
+Lemma val_posting_positions_AL v s t p s' p' :
+  val_posting v s t p = ROk (s', p') ->
+  (forall x, In x (v_qty s) -> is_AL (fst (fst (snd x))) = true) ->
+  (forall x, In x (v_qty s') -> is_AL (fst (fst (snd x))) = true).
+Proof.
+  intros H Hs. unfold val_posting in H. destruct (is_zero (p_qty p)); [injection H as <- _; exact Hs|].
+  assert (E1 : v_qty s' = v_qty (if is_AL (p_acc p)
+                then mkVal (v_prev s) (v_cur s) (pos_add (v_qty s) (p_acc p) (p_com p) (p_qty p)) else s)).
+  { destruct (str_eqb v (p_com p)); [injection H as <- _; reflexivity|].
+    destruct (v_cur s) as [n|]; [|discriminate]. destruct (np_valuate n (p_com p) (p_qty p)); [|discriminate].
+    injection H as <- _. reflexivity. }
+  rewrite E1. destruct (is_AL (p_acc p)) eqn:EAL; [|exact Hs]. cbn [v_qty]. unfold pos_add.
+  intros x Hin. apply sm_put_in in Hin. destruct Hin as [->|Hin]; [exact EAL|apply Hs; exact Hin].
+Qed.
